@@ -13,8 +13,8 @@ Arm    == {"loader", "loader_json", "hook", "context", "context_t", "hook_after_
 Kind   == {"bytes", "seekable", "nonseekable"}
 Sev    == 0..5
 \* families of the analysed pickle A: its verdict, or "crash" when parsing/analysis raises
-Family == {"data", "bigdata", "unused", "dupproto", "sink", "getpid", "eval", "float0", "truncated", "underflow", "nomemo", "persid"}
-VerdictOf(f) == CASE f \in {"data", "bigdata"} -> 0 [] f = "unused" -> 2 [] f = "dupproto" -> 3 [] f = "sink" -> 3 [] f = "getpid" -> 4 [] f = "eval" -> 5 [] OTHER -> 9
+Family == {"data", "bigdata", "unused", "dupproto", "sink", "getpid", "eval", "float0", "truncated", "underflow", "nomemo", "persid", "pkgsub"}
+VerdictOf(f) == CASE f \in {"data", "bigdata"} -> 0 [] f = "unused" -> 2 [] f = "dupproto" -> 3 [] f \in {"sink", "pkgsub"} -> 3 [] f = "getpid" -> 4 [] f = "eval" -> 5 [] OTHER -> 9
 Crashes(f) == VerdictOf(f) = 9
 
 VARIABLES arm, kind, t, fam,     \* configuration
